@@ -161,6 +161,11 @@ BASES = [
         '1040.number_dependents': '1', '1040.dependent_0_ctc': 'yes', '1040_s8812.number_under_17': '1',
         '1040.number_1099-div': '1', '1099-div:0.box_1a': '1000', '1099-div:0.box_7': '120', '1099-div:0.payer': 'Fund Co',
     }, per_year={2021: {'1040_s8812.number_under_18': '1', '1040_s8812.principal_abode_us': 'yes', '1040_s8812.number_children_letter': '1'}}),
+    Base('B12-near-itemizing', ['1040'], {
+        '1040.number_w-2': '1', 'w-2:0.box_1': '90000', 'w-2:0.box_2': '12000', 'w-2:0.box_5': '90000',
+        '1040.itemize': 'yes', '1040.number_1098': '1', '1098:0.box_1': '9000', '1040_sa.state_local_real_estate_taxes': '3000',
+        '1040.charitable_contributions_std_ded': '300',
+    }),
     Base('B7-dense', ['1040'], {
         '1040.number_w-2': '2', 'w-2:1.belongs_to': 'spouse', '1040.filing_status': 'MarriedFilingJointly',
         '1040.number_1099-int': '1', '1040.number_1099-div': '1', '1040.number_1099-g': '1', '1040.number_1098': '1',
